@@ -105,21 +105,21 @@ BackupRef(e, p) ==
     [] e.backup = "othreg"  -> <<"oth", "bk/" \o p.trepo, p.ttag \o "-old">>
     [] OTHER -> <<"none", "none", "none">>
 HasBackup(e) == e.backup \in {"tagtpl", "const", "fullref", "othreg"}
-\* pairs whose previous target image belongs under backup reference r
-BkOwners(conf, st, r) == {p \in Live(conf, st) : /\ HasBackup(conf.entries[p.k])
-                                                  /\ BackupRef(conf.entries[p.k], p) = r
-                                                  /\ Has(st, TRef(p))}
+\* pairs (of the live set L) whose previous target image belongs under backup reference r
+BkOwners(conf, L, st, r) == {p \in L : /\ HasBackup(conf.entries[p.k])
+                                      /\ BackupRef(conf.entries[p.k], p) = r
+                                      /\ Has(st, TRef(p))}
 \* pairs that may bring the digest tag r along (digestTags / referrers switched on)
-DigOwners(conf, st, r) == {p \in Live(conf, st) : /\ (conf.entries[p.k].digestTags \/ conf.entries[p.k].referrers)
-                                                   /\ r[1] = "tgt" /\ r[2] = p.trepo /\ r[3] \in DigTags
-                                                   /\ Has(st, <<"src", p.srepo, r[3]>>)}
+DigOwners(conf, L, st, r) == {p \in L : /\ (conf.entries[p.k].digestTags \/ conf.entries[p.k].referrers)
+                                       /\ r[1] = "tgt" /\ r[2] = p.trepo /\ r[3] \in DigTags
+                                       /\ Has(st, <<"src", p.srepo, r[3]>>)}
 
 First(checks) == IF \E i \in 1..Len(checks) : checks[i][1]
                  THEN checks[CHOOSE i \in 1..Len(checks) : checks[i][1] /\ \A j \in 1..(i-1) : ~checks[j][1]][2]
                  ELSE ""
 
 \* ------------------------------------------------------------ obligations
-\* (O4) a tag is (over)written: where a backup name is configured the image the tag pointed to
+\* (O3) a tag is (over)written: where a backup name is configured the image the tag pointed to
 \* is available (complete) under that name at this very moment.  cur: tag state just before the write
 OverwriteBad(conf, before, cur, r, img) ==
   LET owners == {p \in Live(conf, before) : TRef(p) = r /\ HasBackup(conf.entries[p.k])}
@@ -130,18 +130,18 @@ OverwriteBad(conf, before, cur, r, img) ==
      ELSE ""
 
 \* a tag that differs after the run (or was written during it) must be one the run had to write
-TagExplained(conf, before, after, r) ==
+TagExplained(conf, L, before, after, r) ==
   LET a == Img(after, r)
       b == Img(before, r)
-  IN \/ \E p \in Live(conf, before) : TRef(p) = r /\ a \in Acceptable(conf, before, p) \cup {b}
-     \/ \E p \in BkOwners(conf, before, r) : a \in {Img(before, TRef(p)), b}
-     \/ \E p \in DigOwners(conf, before, r) : a \in {Img(before, <<"src", p.srepo, r[3]>>), b}
-DestRepos(conf, before) ==
-  {<<"tgt", p.trepo>> : p \in Live(conf, before)} \cup
+  IN \/ \E p \in L : TRef(p) = r /\ a \in Acceptable(conf, before, p) \cup {b}
+     \/ \E p \in BkOwners(conf, L, before, r) : a \in {Img(before, TRef(p)), b}
+     \/ \E p \in DigOwners(conf, L, before, r) : a \in {Img(before, <<"src", p.srepo, r[3]>>), b}
+DestRepos(conf, L, before) ==
+  {<<"tgt", p.trepo>> : p \in L} \cup
   {<<BackupRef(conf.entries[p.k], p)[1], BackupRef(conf.entries[p.k], p)[2]>> :
-     p \in {q \in Live(conf, before) : HasBackup(conf.entries[q.k]) /\ Has(before, TRef(q))}}
+     p \in {q \in L : HasBackup(conf.entries[q.k]) /\ Has(before, TRef(q))}}
 
-\* (O1)-(O3), (O5) at the end of a run.  puts: set of references written during the run
+\* obligations at the end of a run.  puts: set of references written during the run
 EndBad(conf, mode, exit, before, after, puts, nwr, nmut) ==
   LET L == Live(conf, before)
       touched == {r \in Refs(before) \cup Refs(after) \cup puts :
@@ -154,20 +154,20 @@ EndBad(conf, mode, exit, before, after, puts, nwr, nmut) ==
          "mirror: a selected source tag is not at the target with the source (platform) digest">>,
        <<exit = 0 /\ mode = "once" /\ \E p \in L : Compl(after, TRef(p)) # 1,
          "mirror: a mirrored image is incomplete at the target">>,
-       <<exit = 0 /\ \E r \in touched \cap excl : ~TagExplained(conf, before, after, r),
+       <<exit = 0 /\ \E r \in touched \cap excl : ~TagExplained(conf, L, before, after, r),
          "untouched: a tag excluded by the filters was written">>,
-       <<exit = 0 /\ \E r \in touched : ~TagExplained(conf, before, after, r),
+       <<exit = 0 /\ \E r \in touched : ~TagExplained(conf, L, before, after, r),
          "untouched: a tag outside the selection was written">>,
        <<\E p \in L : LET e == conf.entries[p.k]
                           b == Img(before, TRef(p))
                       IN /\ HasBackup(e) /\ b # "" /\ Img(after, TRef(p)) # b
-                         /\ BkOwners(conf, before, BackupRef(e, p)) = {p}
+                         /\ BkOwners(conf, L, before, BackupRef(e, p)) = {p}
                          /\ (Img(after, BackupRef(e, p)) # b \/ Compl(after, BackupRef(e, p)) # 1),
          "backup: the overwritten image is not under the backup name after the run">> >>)
 
 \* byte level facts of the trace: repB / repA sets of <<reg, repo, hash>>, lost set of <<reg, repo>>
 RepoBad(conf, exit, before, repB, repA, lost) ==
-  LET dest == DestRepos(conf, before)
+  LET dest == DestRepos(conf, Live(conf, before), before)
   IN First(<<
        <<exit = 0 /\ \E x \in repB : <<x[1], x[2]>> \notin dest /\ x \notin repA,
          "untouched: a repository no selected tag is copied to was modified">>,
